@@ -21,7 +21,8 @@ RULE = ("one value per case, printed in both modes and consumed in every way a c
         "whose one-line length is the threshold -2..+2 at every even offset 0..40, dicts/lists where a *prefix* of the "
         "sorted entries reaches the threshold -6..+3 and more entries follow, wrapped lists with lines that reach the "
         "wrap limit -1..+2, one item of the width of an empty line -3..+3 / longer at the first, a middle, the last, "
-        "the only position, long keys and values in dicts, nesting depth 30..101 (offsets beyond both limits), a value "
+        "the only position, long keys and values in dicts, nesting depth 30..101 (offsets beyond both limits) in both "
+        "modes and 200/400/600/900 in JSON mode at the default recursion limit, a value "
         "next to a string that spells it (1/'1', None/'None'/'null', 1.0/'1.0', []/'[]' ...) in one container and in "
         "consecutive calls, keys that trap code-point order; Python mode only: dicts with int / bool / None keys "
         "mixed with strings (every pair of key kinds in both insertion orders; '1' next to 1, 'True' next to True), "
@@ -176,26 +177,30 @@ def enc_val(v):
         else:
             raise TypeError(type(x))
 
-    def go(x):
-        if isinstance(x, (list, dict)):
+    todo = [("visit", v)]           # explicit stack: values may be nested ~1000 deep
+    while todo:
+        tag, x = todo.pop()
+        if tag == "key":
+            if isinstance(x, float):
+                raise TypeError("float key")
+            atom(x)
+        elif tag == "close":
+            out.append(("l:%d" if isinstance(x, list) else "d:%d") % len(x))
+            done[id(x)] = len(done)
+        elif isinstance(x, (list, dict)):
             if id(x) in done:
                 out.append("r:%d" % done[id(x)])
-                return
+                continue
+            todo.append(("close", x))
             if isinstance(x, list):
-                for y in x:
-                    go(y)
-                out.append("l:%d" % len(x))
+                for y in reversed(x):
+                    todo.append(("visit", y))
             else:
-                for k, y in x.items():
-                    if isinstance(k, float):
-                        raise TypeError("float key")
-                    atom(k)
-                    go(y)
-                out.append("d:%d" % len(x))
-            done[id(x)] = len(done)
+                for k, y in reversed(list(x.items())):
+                    todo.append(("visit", y))
+                    todo.append(("key", k))
         else:
             atom(x)
-    go(v)
     return " ".join(out)
 
 
@@ -245,23 +250,39 @@ def dec_val(tokens):
 _NUM = re.compile(r"-?(0|[1-9][0-9]*)(\.[0-9]+)?([eE][+-]?[0-9]+)?\Z")
 
 
-def _numbers_ok(v, seen=None):
-    """every number of the value prints as a JSON number (finite): the domain of C11"""
-    if isinstance(v, list):
-        return all(_numbers_ok(x) for x in v)
-    if isinstance(v, dict):
-        return all(_numbers_ok(x) for x in v.values()) and not any(isinstance(k, float) for k in v)
-    if isinstance(v, float):                # a finite float: JSON number text that is not an integer text
-        return bool(_NUM.match(str(v))) and not _INT.match(str(v))
+def _nodes(v):
+    """every node of a value, each container object once (iterative: values may be nested ~1000 deep)"""
+    seen, todo = set(), [v]
+    while todo:
+        x = todo.pop()
+        yield x
+        if isinstance(x, (list, dict)):
+            if id(x) in seen:
+                continue
+            seen.add(id(x))
+            todo.extend(x.values() if isinstance(x, dict) else x)
+
+
+def _numbers_ok(v):
+    """every number of the value prints as a JSON number (finite), no float key: the domain of C11"""
+    for x in _nodes(v):
+        if isinstance(x, float) and not (_NUM.match(str(x)) and not _INT.match(str(x))):
+            return False
+        if isinstance(x, dict) and any(isinstance(k, float) for k in x):
+            return False
     return True
 
 
 def _str_keys_only(v):
-    if isinstance(v, list):
-        return all(_str_keys_only(x) for x in v)
-    if isinstance(v, dict):
-        return all(isinstance(k, str) for k in v) and all(_str_keys_only(x) for x in v.values())
-    return True
+    return all(isinstance(k, str) for x in _nodes(v) if isinstance(x, dict) for k in x)
+
+
+def mk_deep(v, kind):
+    """a very deeply nested value: JSON mode only (Python's own parser stops at 200 nested brackets) and few
+    views (the text of a 900-level value has ~1.6 million characters of indentation)"""
+    e = enc_val(v)
+    lines = ["pp j " + e] + (["lc j " + e] if len(e) < 6000 else [])     # the line view up to ~400 levels only
+    return {"lines": lines, "meta": {"kind": kind}}
 
 
 def mk_case(v, kind, off=0, rng=None):
@@ -538,38 +559,41 @@ def _kid(k):
 
 
 def _same(got, want, path="$"):
-    """None, or where the value read back differs from the value printed"""
-    if isinstance(want, dict):
-        if not isinstance(got, _Pairs):
-            return "%s: a dict was printed, %s read back" % (path, type(got).__name__)
-        keys = [_kid(k) for k, _ in got]
-        expect = [_kid(k) for k in sorted(want.keys(), key=_doc_key_order)]
-        if keys != expect:
-            if sorted(keys, key=repr) == sorted(expect, key=repr):
-                return "%s: dict entries are not in sorted key order: %r" % (path, [k for k, _ in got][:8])
-            return "%s: dict keys lost or duplicated: %d printed, %d read back" % (path, len(want), len(keys))
-        byid = {_kid(k): w for k, w in want.items()}
-        for k, g in got:
-            r = _same(g, byid[_kid(k)], "%s[%r]" % (path, k))
-            if r:
-                return r
-        return None
-    if isinstance(want, list):
-        if type(got) is not list:
-            return "%s: a list was printed, %s read back" % (path, type(got).__name__)
-        if len(got) != len(want):
-            return "%s: list of %d items read back with %d items" % (path, len(want), len(got))
-        for i, (g, w) in enumerate(zip(got, want)):
-            r = _same(g, w, "%s[%d]" % (path, i))
-            if r:
-                return r
-        return None
-    if want is True or want is False or want is None:
-        return None if got is want else "%s: %r read back as %r" % (path, want, got)
-    if isinstance(got, (_Pairs, list)) or got is True or got is False or got is None:
-        return "%s: %r read back as a %s" % (path, want, type(got).__name__)
-    if isinstance(want, str) != isinstance(got, str) or got != want:
-        return "%s: %r read back as %r" % (path, want, got)
+    """None, or where the value read back differs from the value printed (explicit stack: deep values)"""
+    todo = [(got, want, path)]
+    while todo:
+        got, want, path = todo.pop()
+        if len(path) > 200:
+            path = path[:90] + "..." + path[-90:]
+        if isinstance(want, dict):
+            if not isinstance(got, _Pairs):
+                return "%s: a dict was printed, %s read back" % (path, type(got).__name__)
+            keys = [_kid(k) for k, _ in got]
+            expect = [_kid(k) for k in sorted(want.keys(), key=_doc_key_order)]
+            if keys != expect:
+                if sorted(keys, key=repr) == sorted(expect, key=repr):
+                    return "%s: dict entries are not in sorted key order: %r" % (path, [k for k, _ in got][:8])
+                return "%s: dict keys lost or duplicated: %d printed, %d read back" % (path, len(want), len(keys))
+            byid = {_kid(k): w for k, w in want.items()}
+            for k, g in reversed(got):
+                todo.append((g, byid[_kid(k)], "%s[%r]" % (path, k)))
+            continue
+        if isinstance(want, list):
+            if type(got) is not list:
+                return "%s: a list was printed, %s read back" % (path, type(got).__name__)
+            if len(got) != len(want):
+                return "%s: list of %d items read back with %d items" % (path, len(want), len(got))
+            for i in range(len(want) - 1, -1, -1):
+                todo.append((got[i], want[i], "%s[%d]" % (path, i)))
+            continue
+        if want is True or want is False or want is None:
+            if got is not want:
+                return "%s: %r read back as %r" % (path, want, got)
+            continue
+        if isinstance(got, (_Pairs, list)) or got is True or got is False or got is None:
+            return "%s: %r read back as a %s" % (path, want, type(got).__name__)
+        if isinstance(want, str) != isinstance(got, str) or got != want:
+            return "%s: %r read back as %r" % (path, want, got)
     return None
 
 
@@ -595,22 +619,13 @@ def _unprintable_int(v):
     lim = sys.get_int_max_str_digits() if hasattr(sys, "get_int_max_str_digits") else 0
     if not lim:
         return False
-    seen = set()
-
-    def go(x):
-        if isinstance(x, bool):
-            return False
-        if isinstance(x, int):
-            return abs(x) >= 10 ** lim
-        if isinstance(x, (list, dict)):
-            if id(x) in seen:
-                return False
-            seen.add(id(x))
-            if isinstance(x, dict):
-                return any(go(k) or go(y) for k, y in x.items())
-            return any(go(y) for y in x)
-        return False
-    return go(v)
+    big = 10 ** lim
+    for x in _nodes(v):
+        if isinstance(x, int) and not isinstance(x, bool) and abs(x) >= big:
+            return True
+        if isinstance(x, dict) and any(isinstance(k, int) and not isinstance(k, bool) and abs(k) >= big for k in x):
+            return True
+    return False
 
 
 def oracle(case, replies):
@@ -989,6 +1004,29 @@ def _shared_values(rng, lim_w):
     return {"x": [row], "y": [row], "z": row}
 
 
+def _deep_chain(rng, depth, shape):
+    """single-item containers nested `depth` levels deep around a small payload"""
+    v = rng.choice([[1], [1, "a", None], {"z": 0, "a": [True]}, "s", 7])
+    for i in range(depth):
+        as_list = shape == "list" or (shape == "mixed" and rng.random() < 0.5)
+        v = [v] if as_list else {rng.choice(["k", "key", "a b"]): v}
+    return v
+
+
+def _deep_cases(rng, quick):
+    """nesting up to what the unmodified printer handles at the DEFAULT recursion limit. Measured on HEAD adb5d03
+    inside a pool worker: 975 levels print and are read back by json.loads, 985 raise RecursionError (outside the
+    domain, ASSUMPTIONS); Python mode is limited to < 200 by Python's own parser, so these cases are JSON only."""
+    shapes = ["list", "dict", "mixed"]
+    if quick:
+        rng.shuffle(shapes)
+        plan = [(200, shapes[0]), (400, shapes[1]), (600, shapes[2]), (900, shapes[0])]
+    else:
+        plan = [(d, sh) for d in (200, 400, 600, 900, 950) for sh in shapes]
+    for depth, shape in plan:
+        yield mk_deep(_deep_chain(rng, depth, shape), "deep-json-%d" % depth)
+
+
 def mk_seq(values, kind):
     """several values through the same printer objects, one after the other (no memory between calls)"""
     lines = []
@@ -1037,7 +1075,7 @@ def gen_cases(rng, tier):
                     yield mk({"c": a, "a": b, "b": c3}, "small-exhaustive")
                     yield mk([[a], [b, c3], {"k": [a, c3]}], "small-exhaustive")
     # 1. random nestings
-    for i in range(1900 if quick else 50000):
+    for i in range(1700 if quick else 50000):
         v = _value(rng, 0, big=(i % 3 == 0))
         off = rng.choice([0, 0, 1, 2, 3, 7, 40])
         yield mk(v, "random-big" if i % 3 == 0 else "random", off)
@@ -1179,6 +1217,9 @@ def gen_cases(rng, tier):
         yield mk(n, "int-str-limit")
         yield mk([1, {"k": [n]}], "int-str-limit")
         yield mk({n: "key", "s": 1}, "int-str-limit")
+    # 16. very deep nesting, JSON mode (default recursion limit; the workers do not raise it)
+    for c in _deep_cases(rng, quick):
+        yield c
     # 12. the same container object at several places of the value
     for _ in range(200 if quick else 4000):
         v = _shared_values(rng, lim_w)
@@ -1201,6 +1242,10 @@ def search_cases(rng, tier):
 
     def mk(v, kind, off=0):
         return mk_case(v, kind, off, rng)
+    for depth in (100, 150, 199, 250, 300, 400, 500, 600, 700, 800, 900, 950):   # deep nesting first: cheap to try
+        for shape in ("list", "dict", "mixed"):
+            v = _deep_chain(rng, depth, shape)
+            yield mk_deep(v, "search-deep") if depth >= 199 else mk(v, "search-deep")
     for depth in range(0, 21):
         off = 2 * depth
         for total in range(max(4, min(lim_d, lim_l) - 30 - off), max(lim_d, lim_l) + 15 - off):
@@ -1267,8 +1312,21 @@ def shrink(case):
         return
     head = [op, mode] + (rest[:1] if op == "gen" else [])
     v = dec_val(rest[1:] if op == "gen" else rest)
-    for w in _smaller(v):
-        yield {"lines": [" ".join(head + [enc_val(w)])], "meta": case.get("meta", {})}
+    # a chain of single-item containers: halve the depth / drop one level first (cheap on very deep values)
+    chain = []
+    x = v
+    while isinstance(x, (list, dict)) and len(x) == 1:
+        chain.append(x)
+        x = x[0] if isinstance(x, list) else next(iter(x.values()))
+    if len(chain) > 8:
+        for cut in (len(chain) // 2, len(chain) // 4, 1):
+            yield {"lines": [" ".join(head + [enc_val(chain[cut])])], "meta": case.get("meta", {})}
+        return
+    try:
+        for w in _smaller(v):
+            yield {"lines": [" ".join(head + [enc_val(w)])], "meta": case.get("meta", {})}
+    except RecursionError:
+        return
 
 
 def _first_value(case):
@@ -1316,16 +1374,9 @@ def tags(case, replies):
     v = _first_value(case)
     kinds = set()
 
-    def walk(x):
+    for x in _nodes(v):
         kinds.add("bool" if x is True or x is False else "none" if x is None else
                   ("int-neg" if x < 0 else "int") if isinstance(x, int) else type(x).__name__)
-        if isinstance(x, list):
-            for y in x:
-                walk(y)
-        elif isinstance(x, dict):
-            for y in x.values():
-                walk(y)
-    walk(v)
     for k in sorted(kinds):
         yield "has:" + k
 
@@ -1356,7 +1407,10 @@ LEVEL_NOTE = ("Kernel-checked theorems (axioms propext, Classical.choice, Quot.s
               "exercises nine orders and sequences), and that the Lean reader is what json.loads / ast.literal_eval do "
               "(compared on every printed text and on randomly damaged JSON texts; diagnostic). Trusted, not verified: "
               "str() of a float and that the real parsers read that token back as the same float (NaN/Infinity are "
-              "outside the domain), CPython's recursion limit (nesting of ~1000 levels raises RecursionError), the "
+              "outside the domain), CPython's recursion limit (at the default limit of 1000 the unmodified printer handles 975 "
+              "nesting levels inside a pool worker and raises RecursionError from 985 on; depths 200/400/600/900 are "
+              "generated in JSON mode, deeper values are outside the domain; Python mode is generated below 200 levels, "
+              "the limit of Python's own parser), the "
               "translator and adapter in harness/c11.py.")
 TECHNIQUE = ("Lean 4 theorems (lexer/parser round trip through a layout-independent token sequence, induction over values, "
              "decimal digits round trip for ints) + translator for keyword tables/thresholds/indentation + "
